@@ -135,6 +135,8 @@ pub enum Style {
     Marker,
     /// include edges, and the last dependency directive is the very last line of the file
     NoTail,
+    /// every dependency is included twice: once at its place and once more after all the others
+    Dup,
 }
 
 #[derive(Clone, Copy, PartialEq, Eq, Debug)]
@@ -164,7 +166,7 @@ impl Proj {
         for (k, j) in self.g.deps(i).into_iter().enumerate() {
             let y = NAMES[j];
             let after = match self.style {
-                Style::Include | Style::Marker | Style::NoTail => false,
+                Style::Include | Style::Marker | Style::NoTail | Style::Dup => false,
                 Style::After => true,
                 Style::Mixed => k % 2 == 1,
             };
@@ -172,6 +174,11 @@ impl Proj {
                 s.push_str(&format!("TXTPP#after {y}.txt\n-TXTPP#run cat {y}.txt\n"));
             } else {
                 s.push_str(&format!("TXTPP#include {y}.txt\n"));
+            }
+        }
+        if self.style == Style::Dup {
+            for j in self.g.deps(i) {
+                s.push_str(&format!("TXTPP#include ./{}.txt\n", NAMES[j]));
             }
         }
         if self.style == Style::Marker {
@@ -192,6 +199,11 @@ impl Proj {
         let mut s = format!("{x}-head\n");
         for j in self.g.deps(i) {
             s.push_str(&self.oracle(j)?);
+        }
+        if self.style == Style::Dup {
+            for j in self.g.deps(i) {
+                s.push_str(&self.oracle(j)?);
+            }
         }
         if self.style == Style::NoTail && !self.g.deps(i).is_empty() {
             // the file ends with a directive whose output ends with a newline: the option adds one more
@@ -252,6 +264,7 @@ impl Case {
             "Mixed" => Style::Mixed,
             "Marker" => Style::Marker,
             "NoTail" => Style::NoTail,
+            "Dup" => Style::Dup,
             _ => Style::Include,
         };
         let pre = match v["pre"].as_str().unwrap_or("") {
@@ -666,12 +679,12 @@ pub fn plan(prop: &str, thorough: bool) -> Vec<Case> {
     match prop {
         "C02" => {
             for g in graphs.iter().filter(|g| g.acyclic()) {
-                let styles: &[Style] = if thorough { &[Style::Include, Style::After, Style::Mixed, Style::NoTail] } else { &[Style::Include, Style::After, Style::NoTail] };
+                let styles: &[Style] = if thorough { &[Style::Include, Style::After, Style::Mixed, Style::NoTail, Style::Dup] } else { &[Style::Include, Style::After, Style::NoTail, Style::Dup] };
                 for &style in styles {
                     if style == Style::Mixed && g.edges().len() < 2 {
                         continue;
                     }
-                    if style == Style::NoTail && g.edges().is_empty() {
+                    if (style == Style::NoTail || style == Style::Dup) && g.edges().is_empty() {
                         continue;
                     }
                     let proj = Proj { g: *g, style };
